@@ -457,54 +457,104 @@ def text_scan_rule(chk, w, rule, parser):
            site=C.site(C.body(w, parser), bad[0][0] if bad else None), sample={"parser": sh, "uses": sorted({c for _, c in uses})})
 
 
+_IT = "core::iter::traits::iterator::Iterator"
+_PRED = r"(?:\('agg', 'closure:([^']+)', \(\)\)|\('fn', '([^']+)'\))"
+
+
+def _pred_kind(w, clo, fnitem):
+    """'is_some' / 'is_none' for the predicate handed to rposition / take_while (a capture-less closure or a fn item)"""
+    if fnitem:
+        m = re.search(r"Option::(is_some|is_none)$", fnitem)
+        return m.group(1) if m else None
+    cb = w.body(clo)
+    if cb is None:
+        return None
+    ci = absint.Interp(w, cb, models=effects.EXTRA_MODELS)
+    table = set()
+    for o in ci.run(0):
+        if o.kind != "return":
+            return None
+        rv = ci.resolve(o, o.value_at((("L", 0),)))
+        var = [c[2] for k_, c in o.cons.items() if c[0] == "varis" and c[1].endswith("option::Option") and "arg2" in k_]
+        if rv[0] != "b" or len(var) != 1:
+            return None
+        table.add((var[0], rv[1]))
+    if table == {("Some", True), ("None", False)}:
+        return "is_some"
+    if table == {("Some", False), ("None", True)}:
+        return "is_none"
+    return None
+
+
 def slot_range_sites(w, fn):
-    """the tag slots written for one character are `ts[.. last present tag + 1]`: in the writers this bound is
-    `ts.iter().rposition(is_some).map_or(0, |x| x + 1)`.  Returns [(bb, default value, closure result form)] for every map_or
-    whose receiver is the result of an rposition call in `fn` (inlined helpers included)."""
-    b = C.body(w, fn)
+    """the tag slots written for one character are `ts[.. last present tag + 1]`.  Every prefix of a tag slice taken in `fn` (inlined
+    helpers included; `&ts[..n]` or `ts.iter().take(n)`) is classified by the forms of its bound n over all paths:
+      map_or   n = ts.iter().rposition(present).map_or(0, |x| x + 1)
+      match    n = 1 + x on the Some(x) path of rposition(present), 0 on the None path
+      trailing n = ts.len() - ts.iter().rev().take_while(absent).count()
+    Returns [(bb, kind or None, detail)]."""
+    b, it, outs = C.run_fn(w, fn)
+    per = {}
+    for o in outs:
+        nz = forms.Normalizer(it, o)
+        for e in o.trace:
+            if e[0] != "call" or not e[2] or len(e[3]) < 2:
+                continue
+            if "Index" in e[2] and e[3][1][0] == "agg" and e[3][1][1].endswith("RangeTo"):
+                v = dict(e[3][1][2])["end"]
+            elif e[2] == _IT + "::take":
+                v = e[3][1]
+            else:
+                continue
+            t = b.blocks[e[1]]["term"]
+            p0 = t["args"][0].get("move") or t["args"][0].get("copy")
+            ty = b.locals[p0["local"]]["ty"] if p0 else ""
+            if "Option<" not in ty:
+                continue
+            per.setdefault(e[1], set()).add(forms.show(nz.form(v)))
+    RP = r"<core::slice::iter::Iter as %s>::rposition\(&[^,]*, %s\)" % (re.escape(_IT), _PRED)
     out = []
-    rpos = {t["dest"]["local"] for _, t in cfgmod.calls(b) if (cfgmod.callee(t) or "").endswith("Iterator>::rposition") or (cfgmod.callee(t) or "").endswith("Iterator::rposition")}
-    clos = {}
-    for k in C.closure_keys(w, fn):
-        cb = w.bodies[k][0]
-        m = re.search(r"\{closure@[^}]*\}", cb.locals[1]["ty"]) if len(cb.locals) > 1 else None
-        if m:
-            clos[m.group(0)] = cb
-    for bb, t in cfgmod.calls(b):
-        if not (cfgmod.callee(t) or "").endswith("Option::map_or") or len(t["args"]) != 3:
-            continue
-        p0 = t["args"][0].get("move") or t["args"][0].get("copy")
-        if not p0 or not (C.backward_locals(b, p0["local"], depth=3) & rpos):
-            continue
-        dflt = t["args"][1].get("const", {}).get("int") if "const" in t["args"][1] else None
-        a2 = t["args"][2]
-        ty = None
-        p2 = a2.get("move") or a2.get("copy")
-        if p2:
-            ty = b.locals[p2["local"]]["ty"]
-        elif "const" in a2:
-            ty = a2["const"].get("zst") or a2["const"].get("ty")
-        m = re.search(r"\{closure@[^}]*\}", ty or "")
-        form = None
-        if m and m.group(0) in clos:
-            cb = clos[m.group(0)]
-            ci = absint.Interp(w, cb, models=effects.EXTRA_MODELS)
-            fs = set()
-            for o in ci.run(0):
-                if o.kind == "return":
-                    fs.add(forms.show(forms.Normalizer(ci, o).form(o.value_at((("L", 0),)))))
-                else:
-                    fs.add(o.kind)
-            form = sorted(fs)
-        out.append((bb, dflt, form))
+    for bb, fs in sorted(per.items()):
+        kind, detail = None, sorted(fs)
+        if len(fs) == 1:
+            f = next(iter(fs))
+            m = re.fullmatch(r"core::option::Option::map_or\(%s, (-?\d+), %s\)" % (RP, _PRED), f)
+            if m:
+                pk = _pred_kind(w, m.group(1), m.group(2))
+                cb = w.body(m.group(4)) if m.group(4) else None
+                cf = None
+                if cb is not None:
+                    ci = absint.Interp(w, cb, models=effects.EXTRA_MODELS)
+                    cf = sorted({forms.show(forms.Normalizer(ci, o).form(o.value_at((("L", 0),)))) if o.kind == "return" else o.kind for o in ci.run(0)})
+                detail = "rposition(%s).map_or(%s, |x| %s)" % (pk, m.group(3), cf)
+                if pk == "is_some" and m.group(3) == "0" and cf == ["1 + arg2"]:
+                    kind = "map_or"
+            elif f.startswith("[T]::len(&") and " - %s::count(" % _IT in f:
+                left, right = f.split(" - %s::count(" % _IT, 1)
+                X = left[len("[T]::len(&"):-1]
+                pre = "%s::take_while(%s::rev([T]::iter(&%s)), " % (_IT, _IT, X)
+                m = re.fullmatch(_PRED + r"\)\)", right[len(pre):]) if right.startswith(pre) else None
+                pk = _pred_kind(w, m.group(1), m.group(2)) if m else None
+                detail = "len - rev().take_while(%s).count()" % pk
+                if pk == "is_none":
+                    kind = "trailing"
+        elif len(fs) == 2 and "0" in fs:
+            f = next(x for x in fs if x != "0")
+            m = re.fullmatch(r"1 \+ %s@Some\.0" % RP, f)
+            if m:
+                pk = _pred_kind(w, m.group(1), m.group(2))
+                detail = "match rposition(%s) { Some(x) => 1 + x, None => 0 }" % pk
+                if pk == "is_some":
+                    kind = "match"
+        out.append((bb, kind, detail))
     return out
 
 
 def slot_range_rule(chk, w, rule, fn, floor):
     sites = slot_range_sites(w, fn)
     chk.floor(rule, "tag slot ranges", len(sites), floor)
-    for k, (bb, dflt, form) in enumerate(sites):
-        chk.ob(rule, "writer:tag-slot-range[%d]" % k, dflt == 0 and form == ["1 + arg2"],
-               "the tags of one character are written up to slot `rposition(present).map_or(%s, |x| %s)`; expected map_or(0, |x| x + 1): every slot up to AND INCLUDING the last "
-               "present tag (otherwise the last tag of that character is not written and is lost on re-parsing)" % (dflt, form), site=C.site(C.body(w, fn), bb),
-               sample={"default": dflt, "closure": form})
+    for k, (bb, kind, detail) in enumerate(sites):
+        chk.ob(rule, "writer:tag-slot-range[%d]" % k, kind is not None,
+               "the tags of one character are written up to slot `%s`; expected the index of the last present tag + 1 (rposition(is_some).map_or(0, |x| x + 1) or an equivalent form): every slot "
+               "up to AND INCLUDING the last present tag (otherwise the last tag of that character is not written and is lost on re-parsing)" % (detail,), site=C.site(C.body(w, fn), bb),
+               sample={"kind": kind, "bound": str(detail)[:200]})
